@@ -11,3 +11,5 @@ def run(rep, ctx):
     reloc.run_relocate_reader(rep, g)
     reloc.run_relocate_writer(rep, g)
     reloc.run_R1(rep, g)
+    from ..liveness import run_liveness
+    run_liveness(rep, ctx.fx, ['R1'])
